@@ -554,4 +554,55 @@ func runC10(c *Ctx) {
 			_ = h
 		}
 	}
+	// large records: the canonical form of one record goes up to 64 KiB (TXT with up to 255 strings of 255 octets, keys
+	// of many octets); Sign produces the RFC 4034 octets for them and Verify accepts its own output
+	{
+		k := keys[dns.ED25519]
+		for _, nstr := range []int{14, 15, 16, 17, 64, 200, 255} {
+			for _, extra := range []int{0, 1} {
+				txt := &dns.TXT{Hdr: dns.RR_Header{Name: "Big.desk.example.org.", Rrtype: dns.TypeTXT, Class: 1, Ttl: 60}}
+				for j := 0; j < nstr; j++ {
+					txt.Txt = append(txt.Txt, strings.Repeat(string(rune('a'+(j+nstr)%26)), 255))
+				}
+				set := []dns.RR{txt}
+				if extra == 1 {
+					set = append(set, &dns.TXT{Hdr: dns.RR_Header{Name: "Big.desk.example.org.", Rrtype: dns.TypeTXT, Class: 1, Ttl: 60}, Txt: []string{"small"}})
+				}
+				var recs []canonRec
+				okc := true
+				for _, rr := range set {
+					buf := make([]byte, dns.Len(rr)+1)
+					off, err := dns.PackRR(rr, buf, 0, nil, false)
+					if err != nil {
+						okc = false
+						break
+					}
+					cr, ok := canonOf(buf[:off])
+					okc = okc && ok
+					recs = append(recs, cr)
+				}
+				in := fmt.Sprintf("TXT with %d strings of 255 octets, %d further records", nstr, extra)
+				if !okc {
+					c.Pred("large-records", "generator", in, false, "does not pack", "packs", false)
+					continue
+				}
+				cs := &captureSigner{priv: capPriv}
+				sig := &dns.RRSIG{Hdr: dns.RR_Header{Ttl: 60}, Algorithm: dns.ED25519, SignerName: "desk.example.org.", KeyTag: 4242, Inception: 1700000000, Expiration: 1900000000}
+				err := sig.Sign(cs, set)
+				if err != nil || len(cs.got) != 1 {
+					c.Pred("large-records", "sign-ok:large", in, false, fmt.Sprint(err), "nil", true)
+					continue
+				}
+				want := specSigned(sig, recs)
+				c.Pred("large-records", "signed-octets-are-rfc4034:large", in, bytes.Equal(cs.got[0], want), fmt.Sprintf("%d octets", len(cs.got[0])), fmt.Sprintf("%d octets", len(want)), true)
+				rs := &dns.RRSIG{Hdr: dns.RR_Header{Ttl: 60}, Algorithm: dns.ED25519, SignerName: "desk.example.org.", KeyTag: k.key.KeyTag(), Inception: 1700000000, Expiration: 1900000000}
+				if err := rs.Sign(k.signer, set); err != nil {
+					c.Pred("large-records", "sign-real:large", in, false, err.Error(), "nil", true)
+					continue
+				}
+				verr := rs.Verify(k.key, set)
+				c.Pred("large-records", "sign-then-verify", in, verr == nil, fmt.Sprint(verr), "nil", true)
+			}
+		}
+	}
 }
